@@ -11,18 +11,22 @@ pinned ones are at most as many as the open iterators. -/
 theorem chain_bound (ops : List Op) (m : M) (outs : List Out) (h : runI false M.new ops = some (m, outs)) :
     m.chain.length = m.vals.length + 1 + (m.chain.filter (·.st == .deleted)).length ∧
     (m.chain.filter (·.st == .deleted)).length ≤ m.its.length :=
-  sorry
+  ⟨(reach_sim' h).chain_length, (reach_sim' h).deleted_le⟩
 
 /-- C11.closed_means_clean: once every iterator has been closed no removed entry is retained. -/
 theorem closed_means_clean (ops : List Op) (m : M) (outs : List Out)
     (h : runI false M.new ops = some (m, outs)) (hc : m.its = []) :
-    m.chain.length = m.vals.length + 1 :=
-  sorry
+    m.chain.length = m.vals.length + 1 := by
+  have h1 := (reach_sim' h).chain_length
+  have h2 := (reach_sim' h).deleted_le
+  rw [hc] at h2
+  simp only [List.length_nil] at h2
+  omega
 
 /-- the loop of `next()` never needs more iterations than there are linked nodes (cost bound) -/
 theorem next_fuel_suffices (ops : List Op) (m : M) (outs : List Out)
     (h : runI false M.new ops = some (m, outs)) (p : Nat) (hp : (findNode m.chain p).isSome) :
     (m.next p).isSome :=
-  sorry
+  next_isSome hp (reach_sim' h).cs.toStr
 
 end C11
